@@ -50,3 +50,13 @@ C("C19", "model_checking",
   "construction-order list, keyword arguments must reach exactly the sub-detectors that accept them, and for every hit pattern (all 2^n "
   "for n<=5) trigger == any(hit) (also by MC truth), clear empties everything; antennas above the surface are rejected for every leaf kind.",
   "leaf detectors have explicit signatures (no **kwargs); an unknown keyword may be refused or dropped", "DESIGN.md §4 C19")
+C("C14", "exploration",
+  "exhaustive lattices over the owned random draws + deviation-bounded choice-tree exploration of the secondary loop + explicit-state BFS over event-tree histories, all on the real classes",
+  "Six neutrino types x both interaction models x 7 energies x {forced CC, forced NC, chosen}: the interaction-type draw and the inelasticity draws "
+  "are swept over a K+1 point lattice (K=16 quick / 64 thorough, incl. the end value 0.0 and points 2^-30 either side of every published threshold) "
+  "as a full product under an owned numpy.random; kind == threshold of the published fraction, CDF of the numerically integrated published "
+  "density at y equals the draw, fraction constraints per flavour/kind. Secondary interactions: every draw a choice point (poisson menu {0,1,2}, "
+  "u menu), all paths with <= 2 (quick) / 3 (thorough) non-default answers. Cross sections on a 361-point energy ladder against the published "
+  "parametrisations, monotone, CC+NC = total (CTW), L = 1/(N_A sigma). Event trees: BFS over all add_children histories up to 6/7 particles "
+  "with a parent-vector reference model checked after every transition.",
+  "verifies the transformation from uniform variates, not the generator; constants transcribed by hand from the papers", "DESIGN.md §4 C14")
